@@ -600,7 +600,7 @@ def replay(payload):
         print(payload["what"])
         print("VIOLATION property=C25 replay=(recorded witness of a thread-mode run)")
         return 1
-    w, status = run_dep(w_["deployment"], w_["sched_seed"])
+    w, status = run_dep(w_["deployment"], w_["sched_seed"], migration=True)
     P = check(w, status)
     print("replay:", status, P[:3])
     if P:
